@@ -19,7 +19,8 @@ func rep(b byte, n int) []byte { return bytes.Repeat([]byte{b}, n) }
 // bug-compatible model on the documented wrong values it has to reproduce.
 func selfTestModel() error {
 	// S0 and S1 are permutations of 0..255 (guards the transcribed data).
-	for name, box := range map[string][]byte{"S0": s0Box, "S1": s1Box} {
+	for i, box := range [][]byte{s0Box, s1Box} {
+		name := []string{"S0", "S1"}[i]
 		var seen [256]bool
 		if len(box) != 256 {
 			return fmt.Errorf("%s has %d entries", name, len(box))
